@@ -48,13 +48,14 @@ Family == {c \in Cases :
                 \/ (Differs(c) = {"route", "hmode"} /\ c.hmode = "client_typed")}
 
 BodyFields(c) == IF BodyVerb(c.verb) THEN <<"b">> ELSE <<>>
-Fields(c) == CASE c.route = "pq" -> <<"p", "q", "rq", "rep", "oq">> \o BodyFields(c)
+Fields(c) == CASE c.route = "pq" -> <<"p", "q", "rq", "rep", "oq", "rrep", "ropt">> \o BodyFields(c)
                [] c.route = "p" -> <<"p">> \o BodyFields(c)
                [] c.route = "deep" -> <<"p", "p2">> \o BodyFields(c)
                [] c.route = "default" -> <<"b">>
 PathVars(c) == CASE c.route \in {"pq", "p"} -> <<"p">> [] c.route = "deep" -> <<"p", "p2">> [] OTHER -> <<>>
 Query(c) == IF c.route = "pq" THEN <<[field |-> "q", name |-> "q", required |-> FALSE], [field |-> "rq", name |-> "rq", required |-> TRUE],
-                                    [field |-> "rep", name |-> "rep", required |-> FALSE], [field |-> "oq", name |-> "oq", required |-> FALSE]>> ELSE <<>>
+                                    [field |-> "rep", name |-> "rep", required |-> FALSE], [field |-> "oq", name |-> "oq", required |-> FALSE],
+                                    [field |-> "rrep", name |-> "rrep", required |-> TRUE], [field |-> "ropt", name |-> "ropt", required |-> TRUE]>> ELSE <<>>
 RpcOf(c) == [name |-> "M", verb |-> c.verb, fields |-> Fields(c), pathVars |-> PathVars(c), query |-> Query(c)]
 ValOf(c) == [i \in DOMAIN Fields(c) |-> [k |-> Fields(c)[i], v |-> "V_" \o Fields(c)[i]]]
 HdrsOf(c) == IF c.hmode = "none" THEN <<>> ELSE <<[k |-> c.hname, v |-> "HV"]>>
